@@ -26,7 +26,7 @@ from pyvc.api import *
 from pyvc.api import PROTOCOLS
 from pyvc.values import cur, is_none, mk_bool, mk_int
 from contracts.proto_widget import *
-from contracts.C08_listbox import FILL, LBX, WALKER, WIDGET, lb_ok, walker_focus
+from contracts.C08_listbox import FILL, LBX, WALKER, WIDGET, lb_ok, walker_focus, widget_at
 
 from urwid.widget import listbox as _lbmod
 
@@ -214,20 +214,23 @@ def cursor_row_visible(cursor, off, maxrow):
     return both(0 <= off + cursor[1], off + cursor[1] < maxrow)
 
 
-def item_ok(fill, j, maxcol):
-    """Entry j of a fill list carries the rows its widget reports at this width (unfocused)."""
-    w, _p, r = Q.seq_get(fill, j)
-    return r == rows_of(w, maxcol, False)
+def item_ok(fill, j, maxcol, ch=None):
+    """Entry j of a fill list carries the rows its widget reports at this width (unfocused), and its widget is the one the
+    walker has at its position (`ch`: the chain, for the walker and its state version)."""
+    w, p, r = Q.seq_get(fill, j)
+    if ch is None:
+        return r == rows_of(w, maxcol, False)
+    return both(r == rows_of(w, maxcol, False), eq(w, widget_at(ch.walker, ch.ver, p)))
 
 
-def every_item_ok(fill, maxcol, name):
+def every_item_ok(fill, maxcol, name, ch=None):
     """`for every index j of the fill list: item_ok` as a statement about ONE arbitrary index (universal
     generalisation, pyvc.values.arbitrary): proved / assumed for that index only, hence for all."""
     n = Q.seq_len(fill)
     if isinstance(n, int):
-        return both(True, *[item_ok(fill, j, maxcol) for j in range(n)])
+        return both(True, *[item_ok(fill, j, maxcol, ch) for j in range(n)])
     q = V.arbitrary(name)
-    return implies(both(0 <= q, q < n), item_ok(fill, q, maxcol))
+    return implies(both(0 <= q, q < n), item_ok(fill, q, maxcol, ch))
 
 
 def last_listed(ch, fill, fpos, kb, kl, d=DOWN):
@@ -328,7 +331,7 @@ def _cv_loop_above(v):
     yield "lines-left", both(v.fill_lines == e.offset_rows - ch.R(UP, k), v.fill_lines >= 0)
     yield "walked-on-only-while-lines-were-left", implies(k >= 1, ch.R(UP, k - 1) < e.offset_rows)
     yield "offset-and-trim-untouched", both(v.offset_rows == e.offset_rows, v.trim_top == e.trim_top)
-    yield "every-listed-item-has-its-widgets-rows", every_item_ok(v.fill_above, v.maxcol, "cv.above")
+    yield "every-listed-item-has-its-widgets-rows", every_item_ok(v.fill_above, v.maxcol, "cv.above", ch)
     kt = _kl_at_head(v, "lb_kt", "p_rows")
     ch.unfold(UP, kt)
     yield "top-listed-item-above", both(last_listed(ch, v.fill_above, v.focus_pos, k, kt, UP), Q.seq_len(v.fill_above) <= k)
@@ -347,7 +350,7 @@ def _cv_loop_below(v):
     yield "lines-left", both(v.fill_lines == v.maxrow - v.focus_rows - off - ch.R(DOWN, j), implies(j >= 1, v.fill_lines >= 0))
     yield "walked-on-only-while-lines-were-left", implies(j >= 1, v.maxrow - v.focus_rows - off - ch.R(DOWN, j - 1) > 0)
     yield "trim-untouched", v.trim_bottom == imax(v.focus_rows + off - v.maxrow, 0)
-    yield "every-listed-item-has-its-widgets-rows", every_item_ok(v.fill_below, v.maxcol, "cv.below")
+    yield "every-listed-item-has-its-widgets-rows", every_item_ok(v.fill_below, v.maxcol, "cv.below", ch)
     kl = _kl_at_head(v)
     ch.unfold(DOWN, kl)
     yield "last-listed-item-below", both(last_listed(ch, v.fill_below, v.focus_pos, j, kl), Q.seq_len(v.fill_below) <= j)
@@ -371,7 +374,7 @@ def _cv_loop_refill(v):
     yield "trim-top-inside-the-topmost-item", both(v.trim_top >= 0, implies(v.trim_top > 0, v.trim_top < ch.item_rows(UP, k, v.focus_rows)))
     yield "a-focus-row-stays-visible", implies(v.focus_rows >= 1, both(off < v.maxrow, off + v.focus_rows >= 1))
     yield "cursor-row-stays-visible", cursor_row_visible(v.cursor, off, v.maxrow)
-    yield "every-listed-item-has-its-widgets-rows", every_item_ok(v.fill_above, v.maxcol, "cv.above")
+    yield "every-listed-item-has-its-widgets-rows", every_item_ok(v.fill_above, v.maxcol, "cv.above", ch)
     kt = ite(v.i_ >= 1, k, _kt_after_loop2())
     ch.unfold(UP, kt)
     yield "top-listed-item-above", last_listed(ch, v.fill_above, v.focus_pos, k, kt, UP)
@@ -418,11 +421,11 @@ def cv_clauses(ch, s, a, result, ka, kb, kl, callee=False, kt=None):
         yield "trim-bottom-inside-the-bottommost-listed-item", trim_inside_outermost_listed(tb, below, frows)
     if callee:
         # per-item clauses: kept as lazy facts, instantiated by the caller at the indices it looks at
-        V.lazy_forall(0, Q.seq_len(above), lambda j: item_ok(above, j, maxcol))
-        V.lazy_forall(0, Q.seq_len(below), lambda j: item_ok(below, j, maxcol))
+        V.lazy_forall(0, Q.seq_len(above), lambda j: item_ok(above, j, maxcol, ch))
+        V.lazy_forall(0, Q.seq_len(below), lambda j: item_ok(below, j, maxcol, ch))
     else:
-        yield "every-item-above-has-its-widgets-rows", every_item_ok(above, maxcol, "cv.above")
-        yield "every-item-below-has-its-widgets-rows", every_item_ok(below, maxcol, "cv.below")
+        yield "every-item-above-has-its-widgets-rows", every_item_ok(above, maxcol, "cv.above", ch)
+        yield "every-item-below-has-its-widgets-rows", every_item_ok(below, maxcol, "cv.below", ch)
 
 
 @contract(LBX + "ListBox.calculate_visible", property="C07", replayable=False)  # C08 uses it as a callee contract only
